@@ -97,6 +97,12 @@ var c18Progs = []c18Prog{
 	{"if-statement-piece", []string{"x := a", "if x > b { x = b }", "x"}, []string{"x"}},
 	{"emit-order", []string{"emit(a)", "x := b", "emit(x)", "emit(c)", "x"}, []string{"x"}},
 	{"const-then-use", []string{"const k = 5", "x := k + a", "x"}, []string{"x"}},
+	{"function-reads-global-reassigned-later", []string{"x := a", "f := func() { return x }", "x = b", "r := f()", "r"}, []string{"x", "r"}},
+	{"named-function-reads-global-reassigned-later", []string{"x := a", "func g2() { return x }", "x = b", "r := g2()", "r"}, []string{"x", "r"}},
+	{"host-global-reassigned-by-a-piece", []string{"a = a + 1", "y := a", "a = a + 1", "z := a + y", "z"}, []string{"y", "z"}},
+	{"forward-reference-inside-a-later-piece", []string{"x := a", "func first() { return second() + 1 }\nfunc second() { return x + 18 }", "r := first()", "r"}, []string{"r"}},
+	{"three-pieces-accumulate", []string{"l := []", "l.append(a)", "l.append(b)", "l.append(c)", "q := l[0] + l[1] + l[2]", "q"}, []string{"q"}},
+	{"piece-ends-with-a-loop", []string{"s := 0", "for i := 0; i < 3; i++ { s += a }", "s = s + 1", "s"}, []string{"s"}},
 	{"switch-piece", []string{"x := 0", "switch a {\ncase 1:\n x = 10\ndefault:\n x = 20\n}", "x + b"}, []string{"x"}},
 }
 
